@@ -7,4 +7,10 @@ Definition run (op : Z) (arg : V) : V :=
   if op =? 2 then run_str_read arg else
   if op =? 3 then run_cp_enc arg else
   if op =? 4 then run_cp_dec arg else
+  if op =? 10 then run_enc arg else
+  if op =? 11 then run_dec arg else
+  if op =? 12 then run_wfb arg else
+  if op =? 13 then run_size arg else
+  if op =? 14 then run_encj arg else
+  if op =? 20 then run_chunks arg else
   fail EOther.
